@@ -77,6 +77,8 @@ def evaluate(mod, cases, scratch, out, findings, asan=False):
             continue
         if hasattr(mod, "tally"):
             mod.tally(out.dist, c, ir)
+        if hasattr(mod, "tally_model") and has_model[i]:
+            mod.tally_model(out.dist, c, model[i])
         if len(out.samples) < 3:
             out.samples.append({"case": c, "impl": ir, "model": model[i], "spec": spec[i]})
         try:
